@@ -4,6 +4,10 @@ import json, os
 HERE = os.path.dirname(os.path.dirname(os.path.abspath(__file__)))
 
 CHECKS = {
+ 'C15': dict(level='exploration', ref='3/C15',
+   technique='environment-fault injection (unknown configurable / unknown reference / missing module at chosen statements) across multi-parse histories with late registration and dynamic registration; statement-by-statement model of the reduced text plus a strict-parse twin world as oracle',
+   text='Each parse mixes flat bindings, blocks, macro definitions and imports with known and unknown targets, references and modules under skip_unknown False / True / list / tuple / set (lists may also name registered configurables); the resulting store must equal the model of the text with exactly the covered unknown statements deleted (placeholders for covered unknown references), an uncovered unknown name must raise, the reduced texts parsed strictly in a reset world must give the same store, placeholders must raise "No configurable matching" on use and at finalize, and under dynamic registration names resolvable through the file\'s own imports are known whether or not an earlier parse registered them.',
+   note='A binding whose own target is unknown never carries an unknown reference the list does not cover (value is parsed before the target is judged; property silent).'),
  'C13': dict(level='exploration', ref='3/C13',
    technique='seeded registration histories over 15 callable / class shapes x 3 registration APIs with an unregistered twin compiled from the same source as oracle; rejected registrations and raising interactive-mode bodies as faults with a registry-unchanged check',
    text='For every registration: register/external leave the original untouched (class attributes by identity, direct calls equal the twin\'s even with bindings present), the registry\'s version reached by selector, by the original object, by scoped selector and by the returned object receives the bindings, metadata (name, doc, signature, module) is preserved, class versions are subclasses whose instances are instances of - and, without registered methods, exactly of - the original class and pickle whenever the original does; each of 7 kinds of invalid registration must raise and leave every registry lookup unchanged; re-registration is possible only inside an interactive block and rejected again after the block exits by return or by exception.',
